@@ -193,6 +193,8 @@ func (b *block) len() int {
 func (b *block) setBase(n int64) {
 	b.base = n
 	b.offset = Offset{File: n}
+	// The block holds no data for the new base until readFrom succeeds.
+	b.buf = nil
 }
 
 func (b *block) NextBase() int64 {
